@@ -516,10 +516,19 @@ SPECS["C04"]["parts"].append(dict(name="upstream-replies", pkg="internal/upstrea
                                   files=dict(TRANSPORT_COMMON, **{"harness/transport/zz_verif_c14_test.go": "internal/upstream/transport/zz_verif_c14_test.go",
                                                                   "harness/transport/zz_verif_c01up_test.go": "internal/upstream/transport/zz_verif_c01up_test.go"}),
                                   params={"quick": {"PROGLEN": 2}, "thorough": {"PROGLEN": 3}}, budget={"quick": 60, "thorough": 900}))
+SPECS["C05"]["parts"].append(dict(SPECS["C04"]["parts"][-1]))
+SPECS["C12"]["parts"].append(dict(name="real-clients", pkg="app/router", run="TestVerifC12Real", go="go", engines=("report", "refdns", "env", "sched", "choice"), shards=1, gomaxprocs=4,
+                                  files={"harness/router/zz_verif_c12real_test.go": "app/router/zz_verif_c12real_test.go"}, budget={"quick": 120, "thorough": 120}))
+SPECS["C14"]["parts"].append(dict(name="real-refused", pkg="internal/upstream", run="TestVerifC14Refused", go="go", engines=("report", "refdns", "env", "sched", "choice"), shards=1, gomaxprocs=4,
+                                  files={"harness/upstream/zz_verif_c14refused_test.go": "internal/upstream/zz_verif_c14refused_test.go"}, budget={"quick": 120, "thorough": 120}))
+SPECS["C06"]["parts"].append(dict(name="real-kinds", pkg="internal/upstream", run="TestVerifC06Kinds", go="go", engines=("report", "refdns", "env", "sched", "choice"), shards=1, gomaxprocs=4,
+                                  files={"harness/upstream/zz_verif_c06kinds_test.go": "internal/upstream/zz_verif_c06kinds_test.go"}, budget={"quick": 120, "thorough": 120}))
 SPECS["C08"]["parts"].append(_mem_e2("C08"))
 SPECS["C19"]["parts"].append(dict(name="redis-slow", pkg="app/router", run="TestVerifC19Redis", go="go", engines=("report", "refdns", "env", "sched", "choice"), shards=1, gomaxprocs=4,
                                   files={"harness/router/zz_verif_redis_test.go": "app/router/zz_verif_redis_test.go", "harness/router/zz_verif_c19redis_test.go": "app/router/zz_verif_c19redis_test.go"},
                                   budget={"quick": 120, "thorough": 120}))
+SPECS["C03"]["parts"].append(dict(name="real-stream", pkg="app/router", run="TestVerifC03RealStream", go="go", engines=("report", "refdns", "env", "sched", "choice"), shards=1, gomaxprocs=4,
+                                  files={"harness/router/zz_verif_realstream_test.go": "app/router/zz_verif_realstream_test.go"}, budget={"quick": 120, "thorough": 120}))
 for _pid in ("C01", "C03"):
     SPECS[_pid]["parts"].append(dict(name="real-udp", pkg="app/router", run="TestVerifRealUDP", go="go", engines=("report", "refdns", "env", "sched", "choice"), shards=1, gomaxprocs=4,
                                      files={"harness/router/zz_verif_realudp_test.go": "app/router/zz_verif_realudp_test.go"},
